@@ -33,6 +33,30 @@ func init() {
 			return true
 		})
 		o.p("def txnLockLoop : String := %s\ndef txnLocksBeforeTime : Bool := %v\ndef txnUnlock : String := %s\n", leanStr(loop), lockPos >= 0 && timePos > lockPos, leanStr(unlock))
+		// core.Dataset is locked last (it is the inner lock of every writer's counter update) and released before the
+		// transaction's own counter updates: the statements that mention it, in source order
+		var coreLock []string
+		ast.Inspect(et.Body, func(n ast.Node) bool {
+			switch x := n.(type) {
+			case *ast.IfStmt:
+				c := oneLine(str(x.Cond))
+				if strings.Contains(c, "core.Dataset") || strings.Contains(c, "coreLocked") {
+					coreLock = append(coreLock, "if "+c)
+				}
+			case *ast.AssignStmt:
+				t := oneLine(str(x))
+				if strings.Contains(t, "coreLocked") || (strings.Contains(t, "datasetNames = append") && len(t) < 120) {
+					coreLock = append(coreLock, t)
+				}
+			case *ast.ExprStmt:
+				t := oneLine(str(x))
+				if strings.Contains(t, "core.Dataset") {
+					coreLock = append(coreLock, t)
+				}
+			}
+			return true
+		})
+		o.p("def txnCoreLock : List String := %s\n", leanList(coreLock))
 		nTxn := 0
 		ast.Inspect(et.Body, func(n ast.Node) bool {
 			if ce, ok := n.(*ast.CallExpr); ok && strings.HasSuffix(str(ce.Fun), "NewTransaction") {
